@@ -223,7 +223,9 @@ def repo_examples():
 
 def gen_facts(treehash, config):
     """Directory with <label>.jsonl (genscan output) for every captured target of the configuration."""
-    out = os.path.join(CACHE, treehash, 'gen-' + config)
+    seed = int(os.environ.get('VERIF_SEED', '1') or 1)
+    full = GEN_CONFIGS[config][1] == 'full'
+    out = os.path.join(CACHE, treehash, 'gen-' + config + ('-s%d' % seed if full else ''))
     done = os.path.join(out, '.done')
     if os.path.exists(done):
         return out
@@ -249,6 +251,11 @@ def gen_facts(treehash, config):
             with open(os.path.join(corpus, 'Cargo.toml'), 'w') as f:
                 f.write(toml.replace('path = "/repo"', 'path = "%s"' % REPO))
             shutil.copy(os.path.join(REPO, 'Cargo.lock'), os.path.join(corpus, 'Cargo.lock'))
+            if full:
+                # thorough tier: a module of pseudo-random definitions (seeded by VERIF_SEED) widens the set of generated programs
+                subprocess.run([sys.executable, os.path.join(corpus, 'gen_random.py'), str(seed), '60', os.path.join(corpus, 'src', 'random_defs.rs')], check=True)
+                with open(os.path.join(corpus, 'src', 'lib.rs'), 'a') as f:
+                    f.write('pub mod random_defs;\n')
             cfeat = ['--features', ','.join(feats)] if feats else []
             jobs.append(('corpus', corpus, ['cargo', '+nightly', 'rustc', '--lib', '--offline'] + cfeat))
             tests = repo_test_targets()
